@@ -202,7 +202,16 @@ class Engine:
     def write_field(self, st, ref, owner, field, kind, val):
         arr = self.heap_array(st, owner, field, kind)
         term = self.coerce(val, kind, st).term
-        st.heap[f"{owner}.{field}"] = z3.Store(arr, ref.term, term)
+        if z3.is_app(term) and term.decl().kind() == z3.Z3_OP_ITE:
+            term = z3.simplify(term)
+        # peepholes keep heap terms canonical (memoised getter results are keyed by the heap term):
+        # overwrite of the location written last, and writing back the value a location already has
+        if z3.is_app(arr) and arr.decl().kind() == z3.Z3_OP_STORE and arr.arg(1).eq(ref.term):
+            arr = arr.arg(0)
+        if z3.is_app(term) and term.decl().kind() == z3.Z3_OP_SELECT and term.arg(0).eq(arr) and term.arg(1).eq(ref.term):
+            st.heap[f"{owner}.{field}"] = arr
+        else:
+            st.heap[f"{owner}.{field}"] = z3.Store(arr, ref.term, term)
         if ref.term.get_id() not in st.fresh_refs:
             st.writes.add(f"{owner}.{field}")
 
@@ -256,14 +265,24 @@ class Engine:
             terms = [self.coerce(x, kind.elem, st).term for x in val.items]
             new = kind.from_terms(terms)
             if st is not None:
+                mkey = ("literal", repr(kind), tuple(t.get_id() for t in terms))
+                if mkey in st.memo:
+                    return st.memo[mkey]
                 new = kind.named(st, new)
                 st.assume(kind.lemma_literal(new, terms))
+                st.memo[mkey] = V(kind, new)
             return V(kind, new)
         if isinstance(val, (VList, VTuple)) and isinstance(kind, SetK):
-            t = z3.EmptySet(kind.elem.sort())
-            for x in val.items:
-                t = z3.SetAdd(t, self.coerce(x, kind.elem, st).term)
-            return V(kind, t)
+            terms = [self.coerce(x, kind.elem, st).term for x in val.items]
+            if st is None:
+                t = z3.EmptySet(kind.elem.sort())
+                for x in terms:
+                    t = z3.SetAdd(t, x)
+                return V(kind, t)
+            mkey = ("setliteral", repr(kind), tuple(t.get_id() for t in terms))
+            if mkey not in st.memo:
+                st.memo[mkey] = V(kind, kind.literal(st, terms))
+            return st.memo[mkey]
         raise Untranslatable(f"cannot coerce {val!r} to {kind!r}")
 
     def to_smt(self, val, st=None):
@@ -333,9 +352,10 @@ class Engine:
             t_ok = self.feasible(st, c)
             f_ok = self.feasible(st, z3.Not(c)) if t_ok else True
         if t_ok and f_ok:
-            self.stats["forks"] += 1
-            if self.stats["forks"] > self.max_paths:
-                raise Untranslatable("path limit exceeded")
+            if not self.no_prune:
+                self.stats["forks"] += 1
+                if self.stats["forks"] > self.max_paths:
+                    raise Untranslatable("path limit exceeded")
             st2 = st.copy()
             st.guard(c)
             st.trace.append(f"{label}:T")
@@ -478,11 +498,20 @@ class Engine:
         raise Untranslatable(f"unknown name {name}", node)
 
     # ------------------------------------------------------------------ expressions
+    MERGE_AT = (ast.Compare, ast.BoolOp, ast.IfExp, ast.Call, ast.UnaryOp)
+
     def ev(self, e, st):
         """Generator of (state, value) for the normal outcomes of evaluating e."""
         m = getattr(self, "ev_" + type(e).__name__, None)
         if m is None:
             raise Untranslatable(f"expression {type(e).__name__}", e)
+        if isinstance(e, self.MERGE_AT) and not self.no_prune:
+            base = len(st.pc)
+            outs = list(m(e, st))
+            if len(outs) > 1:
+                outs = self.try_merge(base, outs)
+            yield from outs
+            return
         yield from m(e, st)
 
     def ev_Constant(self, e, st):
@@ -569,11 +598,13 @@ class Engine:
                     yield st1, VEmptySet()
                     continue
                 kind = SetK(flat[0].kind)
-            t = z3.EmptySet(kind.elem.sort())
+            t = None
             for s in sets:
-                t = z3.SetUnion(t, self.as_set(s, st1).term)
-            for x in flat:
-                t = z3.SetAdd(t, self.coerce(x, kind.elem, st1).term)
+                sv = self.as_set(s, st1).term
+                t = sv if t is None else kind.union(st1, t, sv)
+            if flat:
+                lit = kind.literal(st1, [self.coerce(x, kind.elem, st1).term for x in flat])
+                t = lit if t is None else kind.union(st1, t, lit)
             yield st1, V(kind, t)
 
     def ev_Dict(self, e, st):
@@ -635,15 +666,40 @@ class Engine:
         is_and = isinstance(e.op, ast.And)
         if self.no_prune:
             # pure (spec) evaluation: merge every operand instead of forking (keeps formulas linear in size)
-            terms = []
+            vals, truths = [], []
             cur = st
-            ok = True
             for operand in e.values:
-                v = self.ev_merged(operand, cur, want_bool=True)
-                terms.append(v.term)
-                cur = cur.copy()
-                cur.guard(v.term if is_and else z3.Not(v.term))
-            yield st, V(BOOL, z3.And(terms) if is_and else z3.Or(terms))
+                v = self.ev_merged(operand, cur)
+                t = self.truth(v, cur)
+                vals.append(v)
+                truths.append(t)
+                nxt = cur.copy()
+                nxt.guard(t if is_and else z3.Not(t))
+                # facts established while evaluating the operand stay valid
+                for c in cur.pc[len(st.pc):]:
+                    if c.get_id() in cur.facts and c.get_id() not in st.facts:
+                        st.assume(c)
+                cur = nxt
+            if all(isinstance(v, V) and v.kind == BOOL for v in vals):
+                yield st, V(BOOL, z3.And(truths) if is_and else z3.Or(truths))
+                return
+            # value semantics: `a or b` is a if a is truthy else b
+            seqk = [v.kind for v in vals if isinstance(v, V) and isinstance(v.kind, Seq)]
+            if seqk:
+                vals = [self.coerce(v, seqk[0], st) if isinstance(v, (VList, VTuple)) else v for v in vals]
+            if not all(isinstance(v, V) for v in vals) or any(v.term.sort() != vals[0].term.sort() for v in vals):
+                yield st, V(BOOL, z3.And(truths) if is_and else z3.Or(truths))
+                return
+            # guards: operand i is the value iff all earlier ones did not decide and it decides (or it is last)
+            gs, prev = [], []
+            for i, t in enumerate(truths):
+                decide = z3.Not(t) if is_and else t
+                if i == len(truths) - 1:
+                    gs.append(z3.And(prev) if prev else z3.BoolVal(True))
+                else:
+                    gs.append(z3.And(prev + [decide]))
+                    prev.append(z3.Not(decide))
+            yield st, self.ite_value(st, gs, vals)
             return
 
         def rec(i, st):
@@ -1186,9 +1242,17 @@ class Engine:
         yield st, Flow("continue")
 
     def ex_If(self, s, st):
+        base = len(st.pc)
+        outs = []
         for st1, c in self.ev(s.test, st):
             for st2, b in self.fork(st1, self.truth(c, st1), f"if@{s.lineno}"):
-                yield from self.ex_block(s.body if b else s.orelse, st2)
+                outs += list(self.ex_block(s.body if b else s.orelse, st2))
+        normal = [(stx, f) for stx, f in outs if f.kind == "normal"]
+        other = [(stx, f) for stx, f in outs if f.kind != "normal"]
+        if len(normal) > 1:
+            normal = self.try_merge(base, normal, with_values=False)
+        yield from normal
+        yield from other
 
     def ex_Assert(self, s, st):
         for st1, c in self.ev(s.test, st):
@@ -1324,6 +1388,164 @@ class Engine:
     def ex_AsyncFor(self, s, st):
         raise Untranslatable("async for", s)
 
+    # ------------------------------------------------------------------ conditional values
+    def ite_value(self, st, guards, vals):
+        """Value equal to vals[i] under guards[i] (guards are exclusive and exhaustive in the context).
+
+        Scalars become ite terms; collections become a fresh constant with guarded equalities, so that
+        quantifier triggers (`at(c, i)`, `c[x]`) stay free of ite."""
+        k = vals[0].kind
+        if all(v.term.eq(vals[0].term) for v in vals):
+            return vals[0]
+        if isinstance(k, (Seq, SetK, Map)):
+            c = z3.Const(fresh_name("phi"), k.sort())
+            for g, v in zip(guards, vals):
+                st.assume(z3.Implies(g, c == v.term))
+            return V(k, c)
+        acc = vals[-1].term
+        for g, v in zip(reversed(guards[:-1]), reversed(vals[:-1])):
+            acc = acc if v.term.eq(acc) else z3.If(g, v.term, acc)
+        return V(k, acc)
+
+    # ------------------------------------------------------------------ path merging
+    def same_state_shape(self, a, b):
+        if a.alloc.get_id() != b.alloc.get_id() or a.fresh_refs != b.fresh_refs or a.writes != b.writes:
+            return False
+        if a.heap.keys() != b.heap.keys() and any(
+                (k in a.heap) != (k in b.heap) and not self._pristine(k, (a.heap.get(k) if k in a.heap else b.heap.get(k)))
+                for k in set(a.heap) | set(b.heap)):
+            return False
+        for k in set(a.heap) & set(b.heap):
+            if a.heap[k].get_id() != b.heap[k].get_id():
+                return False
+        if a.pyheap.keys() != b.pyheap.keys() or any(a.pyheap[k] is not b.pyheap[k] for k in a.pyheap):
+            return False
+        if len(a.frames) != len(b.frames):
+            return False
+        for k in set(a.ghost) | set(b.ghost):
+            x, y = a.ghost.get(k), b.ghost.get(k)
+            if isinstance(x, V) and isinstance(y, V):
+                if x.term.get_id() != y.term.get_id():
+                    return False
+            elif x != y:
+                return False
+        return True
+
+    def _pristine(self, k, v):
+        return v is not None and z3.is_const(v) and v.decl().name() == f"H0_{k}"
+
+    def mergeable_values(self, vals):
+        """Return a function building the merged value from guards, or None."""
+        if all(isinstance(v, V) for v in vals):
+            s0 = vals[0].term.sort()
+            if all(v.term.sort() == s0 for v in vals):
+                def build(guards, stm):
+                    return self.ite_value(stm, guards, vals)
+                return build
+            return None
+        if all(isinstance(v, VNone) for v in vals):
+            return lambda guards, stm: NONE
+        if all(v is vals[0] for v in vals):
+            return lambda guards, stm: vals[0]
+        # python-level lists of SMT values can be lifted
+        lifted = [self.to_smt(v) if isinstance(v, (VList, VTuple)) else v for v in vals]
+        if all(isinstance(v, V) for v in lifted) and any(not isinstance(v, V) for v in vals):
+            return None   # lifting needs a state (facts); callers handle this case explicitly
+        return None
+
+    def try_merge(self, base, outs, with_values=True):
+        """Merge several (state, value) outcomes of a pure evaluation into one when only locals / pc differ."""
+        if len(outs) < 2 or self.no_prune:
+            return outs
+        st0 = outs[0][0]
+        for stx, _ in outs[1:]:
+            if not self.same_state_shape(st0, stx):
+                return outs
+        # lift python-level lists to SMT lists where another outcome already holds an SMT list
+        def lift(vals, states):
+            kinds = [v.kind for v in vals if isinstance(v, V) and isinstance(v.kind, Seq)]
+            if not kinds or not any(isinstance(v, (VList, VTuple)) for v in vals):
+                return vals
+            out = []
+            for v, stx in zip(vals, states):
+                if isinstance(v, (VList, VTuple)):
+                    try:
+                        v = self.coerce(v, kinds[0], stx)
+                    except Untranslatable:
+                        return vals
+                out.append(v)
+            return out
+        states = [stx for stx, _ in outs]
+        if with_values:
+            newvals = lift([v for _, v in outs], states)
+            outs = [(stx, nv) for (stx, _), nv in zip(outs, newvals)]
+        for fi in range(len(st0.frames)):
+            names = set()
+            for stx in states:
+                names |= set(stx.frames[fi].keys())
+            for n in names:
+                vals = [stx.frames[fi].get(n) for stx in states]
+                if any(v is None for v in vals):
+                    continue
+                nv = lift(vals, states)
+                for stx, v in zip(states, nv):
+                    stx.frames[fi][n] = v
+        # locals of every frame must be mergeable
+        plans = []
+        for fi in range(len(st0.frames)):
+            names = set()
+            for stx, _ in outs:
+                names |= set(stx.frames[fi].keys())
+            for n in names:
+                vals = [stx.frames[fi].get(n) for stx, _ in outs]
+                if any(v is None for v in vals):
+                    return outs
+                if all(v is vals[0] for v in vals):
+                    continue
+                if all(isinstance(v, V) for v in vals) and all(v.term.eq(vals[0].term) for v in vals):
+                    continue
+                b = self.mergeable_values(vals) if all(isinstance(v, (V, VNone)) for v in vals) else None
+                if b is None:
+                    return outs
+                plans.append((fi, n, b))
+        vb = None
+        if with_values:
+            vals = [v for _, v in outs]
+            if all(v is vals[0] for v in vals):
+                vb = lambda guards, stm: vals[0]
+            else:
+                vb = self.mergeable_values(vals)
+                if vb is None:
+                    return outs
+        guards, hoisted = [], []
+        for stx, _ in outs:
+            gs = []
+            for c in stx.pc[base:]:
+                if c.get_id() in stx.facts:
+                    hoisted.append(z3.Implies(z3.And(gs), c) if gs else c)
+                else:
+                    gs.append(c)
+            guards.append(z3.And(gs) if gs else z3.BoolVal(True))
+        m = st0.copy()
+        m.pc = list(st0.pc[:base])
+        m.facts = set(st0.facts)
+        seen = set()
+        for h in hoisted:
+            if h.get_id() not in seen:
+                seen.add(h.get_id())
+                m.assume(h)
+        m.guard(z3.simplify(z3.Or(guards)))
+        for fi, n, b in plans:
+            m.frames[fi][n] = b(guards, m)
+        # keep only the memoised definitions shared by every merged outcome (their facts are unconditional)
+        common = dict(st0.memo)
+        for stx, _ in outs[1:]:
+            common = {k: v for k, v in common.items() if stx.memo.get(k) is v}
+        m.memo = common
+        m.trace = list(st0.trace[:]) + ["<merged>"]
+        self.stats["merges"] = self.stats.get("merges", 0) + 1
+        return [(m, vb(guards, m) if with_values else outs[0][1])]
+
     # ------------------------------------------------------------------ merged (pure) evaluation
     def ev_merged(self, e, st, want_bool=False):
         """Evaluate a pure expression; merge the forked outcomes into a single value with ite."""
@@ -1366,8 +1588,9 @@ class Engine:
             if h.get_id() not in seen:
                 seen.add(h.get_id())
                 st.assume(h)
-        for st1, _ in outs:
-            for k, v in st1.memo.items():
+        # memoised definitions may only be reused where their defining facts hold unconditionally
+        if len(outs) == 1 and not sink and all(c.get_id() in outs[0][0].facts for c in outs[0][0].pc[base:]):
+            for k, v in outs[0][0].memo.items():
                 st.memo.setdefault(k, v)
         if want_bool:
             # exceptions inside a spec expression make it false
@@ -1375,14 +1598,19 @@ class Engine:
             return V(BOOL, z3.Or(terms) if terms else z3.BoolVal(False))
         if sink and not cases:
             raise SpecError(f"pure expression always raises: {ast.unparse(e) if e is not None else ''}")
+        # mixed python-level / SMT lists: lift the python-level ones
+        seqk = [v.kind for _, v in cases if isinstance(v, V) and isinstance(v.kind, Seq)]
+        if not seqk:
+            lists = [v for _, v in cases if isinstance(v, (VList, VTuple)) and v.items and all(isinstance(x, V) for x in v.items)]
+            if len(cases) > 1 and lists and all(isinstance(v, (VList, VTuple)) for _, v in cases):
+                seqk = [Seq(lists[0].items[0].kind)]
+        if seqk and any(isinstance(v, (VList, VTuple)) for _, v in cases):
+            cases = [(g, self.coerce(v, seqk[0], st) if isinstance(v, (VList, VTuple)) else v) for g, v in cases]
         v0 = cases[-1][1]
         if all(isinstance(v, V) for _, v in cases):
-            acc = cases[-1][1]
-            for g, v in reversed(cases[:-1]):
-                if v.term.sort() != acc.term.sort():
-                    raise SpecError("merge of different sorts")
-                acc = V(v.kind, z3.If(g, v.term, acc.term))
-            return acc
+            if any(v.term.sort() != cases[0][1].term.sort() for _, v in cases):
+                raise SpecError("merge of different sorts")
+            return self.ite_value(st, [g for g, _ in cases], [v for _, v in cases])
         if len(cases) == 1:
             return v0
         if all(isinstance(v, VNone) for _, v in cases):
